@@ -85,8 +85,8 @@ func Main(t *testing.T, prop string, gen Gen, rule string, nontrivial func(Cfg, 
 					res.Count("exec:error")
 				}
 			}
-			if it.T == "stop" && it.Torn {
-				res.Count("stop:torn")
+			if it.T == "stop" && it.Crash {
+				res.Count(fmt.Sprintf("stop:cut-after-%d-files", it.K))
 			}
 			res.Count(k)
 			res.Count("result:" + obs[i].Res)
@@ -103,10 +103,13 @@ func Main(t *testing.T, prop string, gen Gen, rule string, nontrivial func(Cfg, 
 			res.Count("history:empty-batch-with-earlier-timestamp")
 		}
 		if w.Or.tornCommit {
-			res.Count("history:crash-between-height-and-state-write")
+			res.Count("history:crash-inside-commit-group")
 		}
-		if w.Or.tornFiles {
-			res.Count("history:torn-cache-file")
+		if w.Or.cutStop {
+			res.Count("history:shutdown-cut-between-cache-files")
+		}
+		if w.Or.tampered {
+			res.Count("history:cache-file-damaged-by-hand")
 		}
 		term := CaseCoq(rp.Cfg, rp.History, obs, lo, blocks)
 		if nontrivial(rp.Cfg, rp.History, obs) {
